@@ -262,7 +262,7 @@ func mentionsType(info *types.Info, e ast.Expr, tn *types.TypeName) bool {
 }
 
 func init() {
-	register(&Obligation{ID: "C01.c", Props: []string{"C01", "C02", "C12"}, Template: "value-identity",
+	register(&Obligation{ID: "C01.c", Props: []string{"C01", "C02", "C12", "C06"}, Template: "value-identity",
 		Desc: "handleCheckpointBarrier: the DKV checkpoint is taken for the in-progress checkpoint's id, and the completion report carries that id, the operator's own id and key-group range, and the URI returned by the checkpoint just taken",
 		Run: func(r *Run) {
 			f := r.P.Func("workers/operator", "(*Operator).handleCheckpointBarrier")
